@@ -285,22 +285,14 @@ func (x *run) checkpoint(wait time.Duration) *snapshotpb.JobCheckpoint {
 	deadline := time.Now().Add(wait)
 	var wantID uint64
 	var lastTick time.Time
+	logged := false
 	for time.Now().Before(deadline) {
-		if wantID == 0 {
-			// The tick starts a checkpoint unless an earlier one is still pending (the job then retries later):
-			// keep ticking until the runners were asked for a new id, and wait for the publication of THAT id.
-			for _, s := range x.cl.StartCheckpoints()[startsBefore:] {
-				if s.ID > wantID {
-					wantID = s.ID
-				}
-			}
-			if wantID == 0 && time.Since(lastTick) > 2*time.Millisecond {
-				if x.cl.TickCheckpoint() {
-					if lastTick.IsZero() {
-						x.logf("checkpoint tick")
-					}
-					lastTick = time.Now()
-				}
+		// The tick starts a checkpoint unless an earlier one is still pending (the job then retries later), and a
+		// checkpoint that was started on an assembly the job then abandons is discarded: tick whenever the job has
+		// no checkpoint in progress, and wait for the publication of an id our ticks started.
+		for _, s := range x.cl.StartCheckpoints()[startsBefore:] {
+			if !s.Dead && (wantID == 0 || s.ID < wantID) {
+				wantID = s.ID
 			}
 		}
 		if wantID != 0 {
@@ -312,6 +304,15 @@ func (x *run) checkpoint(wait time.Duration) *snapshotpb.JobCheckpoint {
 				}
 				x.logf("job checkpoint %d published", snap.Id)
 				return snap
+			}
+		}
+		if time.Since(lastTick) > 2*time.Millisecond && x.cl.Job.VerifPendingSnapshot() == nil {
+			if x.cl.TickCheckpoint() {
+				if !logged {
+					x.logf("checkpoint tick")
+					logged = true
+				}
+				lastTick = time.Now()
 			}
 		}
 		time.Sleep(200 * time.Microsecond)
